@@ -22,6 +22,7 @@ func init() {
 			ruleClientIDs(c, "C13.11a", "C13.11b", "C13.11")
 			ruleRevisionZeroFrames(c, "C13.12")
 			ruleNothingAfterCloseDecision(c, "C13.13")
+			ruleNoSendAfterFailedSend(c, "C13.14")
 		},
 		Explain:    "Static structural necessary conditions of protocol conformance, decided on the emit-site table of the current tree (every frame literal that reaches a carrier send): ids, settings guard, envelope/continuation shape, contiguity under a per-stream mutex, once-guards per frame kind, exactly-one close. All CFG paths and all call sites; no input or schedule bound. It decides the shape of the emitting code, not the bytes on the wire.",
 		Assume:     []string{"lock identity is struct type + field", "the generated tunnelpb marshalling code is correct", "applications obey gRPC's one-sender-per-direction rule"},
